@@ -58,7 +58,7 @@ Qed.
 Lemma it_snext_mono : forall i ctx its p r x,
   it_snext toks spn run i ctx its p r = Some x -> it_snext toks spn run' i ctx its p r = Some x.
 Proof.
-  induction i as [a lo hi|a sep lo hi lead trail|j IHj|f j IHj|f j IHj|a|a lo hi ck|a];
+  induction i as [a lo hi|a sep lo hi lead trail|j IHj|f j IHj|f j IHj|a|a lo hi ck|a|i1 IHi1 i2 IHi2];
     intros ctx its p r x H; cbn [it_snext] in *.
   - destruct its; try discriminate.
     destruct (rep_snext run a lo hi ctx n p r) as [[[x0 c'] r0]|] eqn:E; [|discriminate].
@@ -74,11 +74,17 @@ Proof.
   - destruct (it_snext toks spn run j ctx its p r) as [[[x0 c'] r0]|] eqn:E; [|discriminate].
     now rewrite (IHj _ _ _ _ _ E).
   - destruct its; try discriminate. destruct b; [exact H|]. use_run H; auto.
-  - destruct its as [c|k js|b|c clo chi|k|o]; try discriminate.
+  - destruct its as [c|k js|b|c clo chi|k|o|sa sb]; try discriminate.
     + destruct (rep_snext run a clo chi ctx c p r) as [[[x0 c'] r0]|] eqn:E; [|discriminate].
       now rewrite (rep_snext_mono _ _ _ _ _ _ _ _ E).
     + use_run H; auto.
-  - destruct its as [| | | | |[l|]]; try discriminate; [exact H|]. use_run H; auto.
+  - destruct its as [| | | | |[l|]|]; try discriminate; [exact H|]. use_run H; auto.
+  - destruct its as [| | | | | |sa [sb|]]; try discriminate.
+    + destruct (it_snext toks spn run i2 ctx sb p r) as [[[x0 c'] r0]|] eqn:E; [|discriminate]. now rewrite (IHi2 _ _ _ _ _ E).
+    + destruct (it_snext toks spn run i1 ctx sa p r) as [[[x0 c'] r0]|] eqn:E; [|discriminate]. rewrite (IHi1 _ _ _ _ _ E).
+      destruct x0; try exact H.
+      destruct (it_snext toks spn run i2 ctx (mk_iter i2 ctx) p0 r0) as [[[x1 c1] r1]|] eqn:E2; [|discriminate].
+      now rewrite (IHi2 _ _ _ _ _ E2).
 Qed.
 
 Lemma sdrive_mono : forall fuel fuel' i ctx its lim acc acce p r x, fuel <= fuel' ->
